@@ -190,6 +190,23 @@ def run_layout(it):
                 if sig not in seen:
                     seen.add(sig)
                     res["violations"].append(Violation(PROP, sig, "%s on layout %s%s: %s" % (name, dims, sizes, bad), dict(kind="layout", dims=list(dims), sizes=list(sizes), k=it["k"], op=name)))
+    # the same batch stored with a non-spectral dimension AFTER freq (e.g. (freq, time, dir)): results must not change
+    if dims and len(dims) <= 2 and "part" not in dims:
+        order_t = list(dims[:-1]) + ["freq", dims[-1], "dir"]
+        da_t = da.transpose(*order_t).copy()
+        for name, (fn, kind) in ops.items():
+            full = c05.run_op(fn, da, aux)
+            full_t = c05.run_op(fn, da_t, aux)
+            res["evals"] += 2
+            if isinstance(full, Exception) and isinstance(full_t, Exception):
+                continue
+            msg = c05.compare(full_t, full, F32_DERIVED.get(name, 1e-10))
+            if msg:
+                sig = "%s|same-result-with-a-non-spectral-dimension-stored-after-freq|%s" % (name, "dims=" + "+".join(dims))
+                if sig not in seen:
+                    seen.add(sig)
+                    res["violations"].append(Violation(PROP, sig, "%s on layout %s stored as %s: %s" % (name, dims, order_t, msg),
+                                                       dict(kind="layout", dims=list(dims), sizes=list(sizes), k=it["k"], op=name)))
     # wind-dependent partitions again with wind/depth fields in which positions share some of the values
     if npos > 1 and "part" not in dims:
         das, auxs_all = build(dims, sizes, idx, wind="shared")
@@ -308,7 +325,7 @@ def run(rep, tier, seed, parts=None):
     rep.rule = ("every layout of 0-3 non-spectral dimensions drawn from {time, site, lat, lon, part} in every order (quick: all 0/1/2-dim "
                 "layouts and every 4th 3-dim one; thorough: all 86) with sizes in {1,2,3}, positions filled from a menu of 30 pairwise "
                 "distinct spectra (incl. zero, constant, peak-less, single-bin) with per-position wind and depth (all distinct, and a second field in which positions share wind speed/direction or depth); %d operations (all public "
-                "methods except hmax); for every position the batch result must equal the result on the extracted single spectrum, and "
+                "methods except hmax); for every position the batch result must equal the result on the extracted single spectrum (also with a non-spectral dimension stored after freq for the 1- and 2-dimension layouts), and "
                 "replacing one spectrum must leave every other position bitwise unchanged; all 900 ordered pairs of menu spectra on a "
                 "2-position layout (quick: 12 operations, thorough: all); Dataset accessor vs efth accessor for every operation. "
                 "Non-trivial = (operation, position) in a layout with more than one position / each ordered pair." % len(ops))
